@@ -1,5 +1,6 @@
 import DaeVerif.C02.Model
 import DaeVerif.C12.Props
+import DaeVerif.C01.Proofs
 /-! Helper lemmas for C02. -/
 set_option linter.unusedSimpArgs false
 namespace DaeVerif.C02
@@ -927,5 +928,371 @@ theorem inherit_installed (m : KMaps) (start : Nat) (kp : List KEntry) (tries : 
   rw [List.mem_filter] at hmem
   have : ringSlot start idx ∈ genSlots start tries.length := (mem_genSlots _ _ _).mpr ⟨idx, hidx, rfl⟩
   simp [this] at hmem
+
+
+/-! ## the builder's sharing allocator; ranges derived from the rules as written -/
+
+
+
+theorem getElem?_append_ext {α : Type} (l ext : List α) (i : Nat) (x : α) (h : l[i]? = some x) : (l ++ ext)[i]? = some x := by
+  rw [List.getElem?_append_left (List.getElem?_eq_some_iff.mp h).1]; exact h
+
+theorem kcondShare_spec (hash : List Prefix → Nat) (b : Builder) (hinv : b.Inv) (mc : MCond)
+    (p : Pkt) (wan : Bool) (ubm : List Nat) (pos : Nat)
+    (hd : ∀ j, mc = .domainSet j → bitmapBit ubm pos = p.dom.getD j false) :
+    (kcondShare hash b mc).2.Inv ∧ (∃ ext, (kcondShare hash b mc).2.tries = b.tries ++ ext) ∧
+    ∀ T ext, T = (kcondShare hash b mc).2.tries ++ ext →
+      evalU T ubm (toK p wan) (pos, (kcondShare hash b mc).1) = evalM p mc := by
+  cases mc with
+  | ipSet ps =>
+    obtain ⟨h1, h2, h3⟩ := Builder.addSet_spec hash b ps hinv
+    refine ⟨h1, h2, ?_⟩
+    intro T ext hT
+    have hT' : T = (b.addSet hash ps).1.tries ++ ext := hT
+    simp only [kcondShare, evalU, evalM, toK]
+    rw [hT', getElem?_append_ext _ _ _ _ h3]
+    exact C12.Props.canonicalize_same_set ps p.dst
+  | srcIpSet ps =>
+    obtain ⟨h1, h2, h3⟩ := Builder.addSet_spec hash b ps hinv
+    refine ⟨h1, h2, ?_⟩
+    intro T ext hT
+    have hT' : T = (b.addSet hash ps).1.tries ++ ext := hT
+    simp only [kcondShare, evalU, evalM, toK]
+    rw [hT', getElem?_append_ext _ _ _ _ h3]
+    exact C12.Props.canonicalize_same_set ps p.src
+  | macSet ps =>
+    refine ⟨?_, ⟨[ps], rfl⟩, ?_⟩
+    · intro h e he
+      exact getElem?_append_ext _ _ _ _ (hinv h e he)
+    · intro T ext hT
+      have hT' : T = (b.tries ++ [ps]) ++ ext := hT
+      simp only [kcondShare, evalU, evalM, toK]
+      rw [hT', List.append_assoc, List.getElem?_append_right (Nat.le_refl _)]
+      simp
+  | domainSet j =>
+    refine ⟨hinv, ⟨[], by simp [kcondShare]⟩, ?_⟩
+    intro T ext _
+    simp only [kcondShare, kcondOf, evalU, evalM]
+    exact hd j rfl
+  | port lo hi => exact ⟨hinv, ⟨[], by simp [kcondShare]⟩, fun T ext _ => by simp [kcondShare, kcondOf, evalU, evalM, toK]⟩
+  | srcPort lo hi => exact ⟨hinv, ⟨[], by simp [kcondShare]⟩, fun T ext _ => by simp [kcondShare, kcondOf, evalU, evalM, toK]⟩
+  | ipVersion mk => exact ⟨hinv, ⟨[], by simp [kcondShare]⟩, fun T ext _ => by simp [kcondShare, kcondOf, evalU, evalM, toK]⟩
+  | l4Proto mk => exact ⟨hinv, ⟨[], by simp [kcondShare]⟩, fun T ext _ => by simp [kcondShare, kcondOf, evalU, evalM, toK]⟩
+  | processName bs => exact ⟨hinv, ⟨[], by simp [kcondShare]⟩, fun T ext _ => by simp [kcondShare, kcondOf, evalU, evalM, toK]⟩
+  | dscp v => exact ⟨hinv, ⟨[], by simp [kcondShare]⟩, fun T ext _ => by simp [kcondShare, kcondOf, evalU, evalM, toK]⟩
+  | fallback => exact ⟨hinv, ⟨[], by simp [kcondShare]⟩, fun T ext _ => by simp [kcondShare, kcondOf, evalU, evalM, toK]⟩
+
+theorem assignShare_scan (hash : List Prefix → Nat) (p : Pkt) (wan : Bool) (ubm : List Nat) :
+    ∀ (es : List (Entry MCond Out)) (b : Builder) (pos : Nat), b.Inv → (∀ e ∈ es, OutOK e) → DomOK ubm p pos es →
+      (assignShare hash b es).2.Inv ∧ (∃ ext, (assignShare hash b es).2.tries = b.tries ++ ext) ∧
+      ∀ T ext, T = (assignShare hash b es).2.tries ++ ext → ∀ g bd mu,
+        scanAux (evalU T ubm (toK p wan)) (toEntriesFrom pos (assignShare hash b es).1) g bd mu = scanAux (evalM p) es g bd mu := by
+  intro es
+  induction es with
+  | nil =>
+    intro b pos hinv _ _
+    exact ⟨hinv, ⟨[], by simp [assignShare]⟩, fun _ _ _ _ _ _ => rfl⟩
+  | cons e es ih =>
+    intro b pos hinv hout hdom
+    have he := hout e List.mem_cons_self
+    have hes : ∀ e' ∈ es, OutOK e' := fun e' h => hout e' (List.mem_cons_of_mem _ h)
+    have hdom' : ((match e.cond with
+        | .domainSet j => bitmapBit ubm pos == p.dom.getD j false
+        | _ => true) && domOK ubm p (pos + 1) es) = true := hdom
+    rw [Bool.and_eq_true] at hdom'
+    obtain ⟨hd0', hds⟩ := hdom'
+    have hd0 : ∀ j, e.cond = .domainSet j → bitmapBit ubm pos = p.dom.getD j false := by
+      intro j hj; rw [hj] at hd0'; simpa using hd0'
+    obtain ⟨k1, ⟨ext1, k2⟩, k3⟩ := kcondShare_spec hash b hinv e.cond p wan ubm pos hd0
+    obtain ⟨i1, ⟨ext2, i2⟩, i3⟩ := ih (kcondShare hash b e.cond).2 (pos + 1) k1 hes hds
+    refine ⟨i1, ⟨ext1 ++ ext2, ?_⟩, ?_⟩
+    · show (assignShare hash (kcondShare hash b e.cond).2 es).2.tries = _
+      rw [i2, k2, List.append_assoc]
+    · intro T ext hT g bd mu
+      show scanAux _ (toEntriesFrom pos (mkK e (kcondShare hash b e.cond).1 :: (assignShare hash (kcondShare hash b e.cond).2 es).1)) g bd mu = _
+      simp only [toEntriesFrom, tailOf_mkK e _ he]
+      have hT' : T = (assignShare hash (kcondShare hash b e.cond).2 es).2.tries ++ ext := hT
+      obtain ⟨ec, en, et⟩ := e
+      apply scan_head_congr
+      · apply k3 T (ext2 ++ ext)
+        rw [hT', i2, List.append_assoc]
+      · intro g bd mu
+        exact i3 T ext hT' g bd mu
+
+
+/-! ## from the rules as written to the ranges the typed array needs -/
+
+theorem mem_lowerAlts {κ ο : Type} (neg : Bool) (last : Tail ο) : ∀ (ks : List κ) (k : κ) (e : Entry κ ο),
+    e ∈ lowerAlts neg last k ks → e.neg = neg ∧ e.cond ∈ k :: ks ∧ (e.tail = .or ∨ e.tail = last) := by
+  intro ks
+  induction ks with
+  | nil => intro k e h; simp only [lowerAlts, List.mem_singleton] at h; subst h; simp
+  | cons k' ks ih =>
+    intro k e h
+    simp only [lowerAlts, List.mem_cons] at h
+    rcases h with rfl | h
+    · simp
+    · obtain ⟨h1, h2, h3⟩ := ih k' e h
+      exact ⟨h1, List.mem_cons_of_mem _ h2, h3⟩
+
+theorem mem_lowerConds {κ ο : Type} (out : Tail ο) : ∀ (cs : List (Cond κ)) (c : Cond κ) (e : Entry κ ο),
+    e ∈ lowerConds out c cs → ∃ c' ∈ c :: cs, e.neg = c'.neg ∧ e.cond ∈ c'.alts ∧ (e.tail = .or ∨ e.tail = .and ∨ e.tail = out) := by
+  intro cs
+  induction cs with
+  | nil =>
+    intro c e h
+    simp only [lowerConds, lowerCond] at h
+    obtain ⟨h1, h2, h3⟩ := mem_lowerAlts _ _ _ _ _ h
+    exact ⟨c, List.mem_cons_self, h1, h2, by rcases h3 with h3 | h3 <;> simp [h3]⟩
+  | cons c' cs ih =>
+    intro c e h
+    simp only [lowerConds, lowerCond, List.mem_append] at h
+    rcases h with h | h
+    · obtain ⟨h1, h2, h3⟩ := mem_lowerAlts _ _ _ _ _ h
+      exact ⟨c, List.mem_cons_self, h1, h2, by rcases h3 with h3 | h3 <;> simp [h3]⟩
+    · obtain ⟨c'', hm, h1, h2, h3⟩ := ih c' e h
+      exact ⟨c'', List.mem_cons_of_mem _ hm, h1, h2, h3⟩
+
+theorem mem_lower {κ ο : Type} (rs : List (Rule κ ο)) (e : Entry κ ο) (h : e ∈ lower rs) :
+    ∃ r ∈ rs, ∃ c ∈ r.conds, e.neg = c.neg ∧ e.cond ∈ c.alts ∧ (e.tail = .or ∨ e.tail = .and ∨ e.tail = outTail r.out) := by
+  unfold lower at h
+  rw [List.mem_flatMap] at h
+  obtain ⟨r, hr, he⟩ := h
+  obtain ⟨c, hc, h1, h2, h3⟩ := mem_lowerConds _ _ _ _ he
+  exact ⟨r, hr, c, hc, h1, h2, h3⟩
+
+/-- ranges of a compiled condition / tail (what the Go types enforce: `uint16` ports, `uint8` masks
+and DSCP, 16-byte names, user outbounds below the sentinels, 32-bit marks) -/
+def MCondOK : MCond → Prop
+  | .ipSet ps => ∀ p ∈ ps, p.WF
+  | .srcIpSet ps => ∀ p ∈ ps, p.WF
+  | .macSet ps => ∀ p ∈ ps, p.WF
+  | .port lo hi => lo < 65536 ∧ hi < 65536
+  | .srcPort lo hi => lo < 65536 ∧ hi < 65536
+  | .ipVersion m => m < 256
+  | .l4Proto m => m < 256
+  | .processName bs => bs.length = 16
+  | .dscp v => v < 256
+  | _ => True
+
+def TailOK : Tail Out → Prop
+  | .final o => o.outbound < OB_MustRules ∧ o.mark < 2 ^ 32
+  | _ => True
+
+/-- ranges at the level of the rules as written, on top of C01's `SRule.WF` -/
+def bodyRanges : SBody → Prop
+  | .port _ gs => ∀ g ∈ gs.toList, ∀ r ∈ g.toList, r.1 < 65536 ∧ r.2 < 65536
+  | .dscp gs => ∀ g ∈ gs.toList, ∀ v ∈ g.toList, v < 256
+  | _ => True
+
+def outOKsrc : RuleOut Out → Prop
+  | .final o => o.outbound < OB_MustRules ∧ o.mark < 2 ^ 32
+  | .mustRules => True
+
+def ruleRanges (r : SRule) : Prop := (∀ c ∈ r.first :: r.rest, bodyRanges c.body) ∧ outOKsrc r.out
+
+theorem orMask_lt (l : List Nat) (h : ∀ b ∈ l, b ≤ 2) : orMask l < 4 := by
+  induction l with
+  | nil => decide
+  | cons a t ih =>
+    rw [orMask_cons]
+    have ha : a < 2 ^ 2 := by have := h a List.mem_cons_self; omega
+    have ht : orMask t < 2 ^ 2 := ih (fun b hb => h b (List.mem_cons_of_mem _ hb))
+    exact Nat.or_lt_two_pow ha ht
+
+theorem mem_values_flat {α : Type} (gs : NE (NE α)) (v : α) (h : v ∈ gs.head.head :: (gs.head.tail ++ gs.tail.flatMap NE.toList)) :
+    ∃ g ∈ gs.toList, v ∈ g.toList := by
+  rw [← flat_values] at h
+  rw [List.mem_flatMap] at h
+  exact h
+
+theorem compileBody_ok (neg : Bool) (b : SBody) (hwf : b.WF) (hr : bodyRanges b) :
+    ∀ mc ∈ (compileBody neg b).toList, MCondOK mc := by
+  intro mc hmc
+  cases b with
+  | ip isDst gs =>
+    cases isDst <;>
+    · simp only [compileBody, NE.toList_map, List.mem_map] at hmc
+      obtain ⟨g, hg, rfl⟩ := hmc
+      exact fun p hp => hwf g hg p hp
+  | mac gs =>
+    simp only [compileBody, NE.toList_map, List.mem_map] at hmc
+    obtain ⟨g, hg, rfl⟩ := hmc
+    intro p hp
+    rw [List.mem_map] at hp
+    obtain ⟨m, hm, rfl⟩ := hp
+    apply macPrefix_WF
+    cases neg
+    · exact hwf g hg m (by simpa using hm)
+    · simp only [if_true, List.mem_append, List.mem_singleton] at hm
+      rcases hm with hm | rfl
+      · exact hwf g hg m hm
+      · decide
+  | port isDst gs =>
+    cases isDst <;>
+    · simp only [compileBody, NE.toList, List.mem_cons, List.mem_map] at hmc
+      rcases hmc with rfl | ⟨r, hrm, rfl⟩
+      · obtain ⟨g, hg, hv⟩ := mem_values_flat gs gs.head.head List.mem_cons_self
+        exact hr g hg _ hv
+      · obtain ⟨g, hg, hv⟩ := mem_values_flat gs r (List.mem_cons_of_mem _ hrm)
+        exact hr g hg _ hv
+  | l4proto gs =>
+    simp only [compileBody, NE.toList_map, List.mem_map] at hmc
+    obtain ⟨g, hg, rfl⟩ := hmc
+    have := orMask_lt g.toList (hwf g hg)
+    show orMask g.toList < 256
+    omega
+  | ipversion gs =>
+    simp only [compileBody, NE.toList_map, List.mem_map] at hmc
+    obtain ⟨g, hg, rfl⟩ := hmc
+    have := orMask_lt g.toList (hwf g hg)
+    show orMask g.toList < 256
+    omega
+  | pname gs =>
+    simp only [compileBody, NE.toList, List.mem_cons, List.mem_map] at hmc
+    rcases hmc with rfl | ⟨r, _, rfl⟩ <;> exact pad16_length _
+  | dscp gs =>
+    simp only [compileBody, NE.toList, List.mem_cons, List.mem_map] at hmc
+    rcases hmc with rfl | ⟨r, hrm, rfl⟩
+    · obtain ⟨g, hg, hv⟩ := mem_values_flat gs gs.head.head List.mem_cons_self
+      exact hr g hg _ hv
+    · obtain ⟨g, hg, hv⟩ := mem_values_flat gs r (List.mem_cons_of_mem _ hrm)
+      exact hr g hg _ hv
+  | domain gs =>
+    simp only [compileBody, NE.toList_map, List.mem_map] at hmc
+    obtain ⟨g, _, rfl⟩ := hmc
+    trivial
+
+theorem compileProgram_ok (rules : List SRule) (fb : Out) (hwf : ∀ r ∈ rules, r.WF) (hr : ∀ r ∈ rules, ruleRanges r)
+    (hfb : fb.outbound < OB_MustRules ∧ fb.mark < 2 ^ 32) :
+    ∀ e ∈ compileProgram rules fb, MCondOK e.cond ∧ TailOK e.tail := by
+  intro e he
+  unfold compileProgram at he
+  rw [List.mem_append, List.mem_singleton] at he
+  rcases he with he | rfl
+  · obtain ⟨r', hr', c', hc', _, h2, h3⟩ := mem_lower _ _ he
+    rw [List.mem_map] at hr'
+    obtain ⟨r, hrm, rfl⟩ := hr'
+    have hcs : c' ∈ (compileCond r.first) :: r.rest.map compileCond := hc'
+    rw [← List.map_cons, List.mem_map] at hcs
+    obtain ⟨c, hc, rfl⟩ := hcs
+    constructor
+    · exact compileBody_ok c.neg c.body (hwf r hrm c hc) ((hr r hrm).1 c hc) e.cond h2
+    · rcases h3 with h3 | h3 | h3
+      · rw [h3]; trivial
+      · rw [h3]; trivial
+      · rw [h3]
+        have := (hr r hrm).2
+        simp only [compileRule]
+        cases hro : r.out with
+        | final o => rw [hro] at this; exact this
+        | mustRules => trivial
+  · exact ⟨trivial, hfb⟩
+
+theorem addSet_tries_mem (hash : List Prefix → Nat) (b : Builder) (raw t : List Prefix)
+    (h : t ∈ (b.addSet hash raw).1.tries) : t ∈ b.tries ∨ t = canonicalize raw := by
+  unfold Builder.addSet at h
+  simp only at h
+  split at h
+  · split at h
+    · left; exact h
+    · simp only [List.mem_append, List.mem_singleton] at h; exact h
+  · simp only [List.mem_append, List.mem_singleton] at h; exact h
+
+theorem KCond.WF_mono (c : KCond) (n m : Nat) (h : c.WF n) (hnm : n ≤ m) : c.WF m := by
+  cases c <;> simp only [KCond.WF] at h ⊢ <;> first | omega | exact h
+
+theorem kcondShare_ok (hash : List Prefix → Nat) (b : Builder) (mc : MCond) (hinv : b.Inv)
+    (htw : ∀ t ∈ b.tries, ∀ p ∈ t, p.WF) (hm : MCondOK mc) :
+    (∀ t ∈ (kcondShare hash b mc).2.tries, ∀ p ∈ t, p.WF) ∧
+    (kcondShare hash b mc).1.WF (kcondShare hash b mc).2.tries.length := by
+  have shared : ∀ ps : List Prefix, (∀ p ∈ ps, p.WF) →
+      (∀ t ∈ (b.addSet hash ps).1.tries, ∀ p ∈ t, p.WF) ∧ (b.addSet hash ps).2 < (b.addSet hash ps).1.tries.length := by
+    intro ps hps
+    constructor
+    · intro t ht p hp
+      rcases addSet_tries_mem hash b ps t ht with h | rfl
+      · exact htw t h p hp
+      · exact hps p ((mem_canonicalize p ps).mp hp)
+    · exact (List.getElem?_eq_some_iff.mp (Builder.addSet_spec hash b ps hinv).2.2).1
+  cases mc with
+  | ipSet ps => exact shared ps hm
+  | srcIpSet ps => exact shared ps hm
+  | macSet ps =>
+    constructor
+    · intro t ht p hp
+      simp only [kcondShare, List.mem_append, List.mem_singleton] at ht
+      rcases ht with ht | rfl
+      · exact htw t ht p hp
+      · exact hm p hp
+    · simp [kcondShare, KCond.WF]
+  | domainSet j => exact ⟨htw, trivial⟩
+  | port lo hi => exact ⟨htw, hm⟩
+  | srcPort lo hi => exact ⟨htw, hm⟩
+  | ipVersion mk => exact ⟨htw, hm⟩
+  | l4Proto mk => exact ⟨htw, hm⟩
+  | processName bs => exact ⟨htw, hm⟩
+  | dscp v => exact ⟨htw, hm⟩
+  | fallback => exact ⟨htw, trivial⟩
+
+theorem kcondShare_mono (hash : List Prefix → Nat) (b : Builder) (mc : MCond) (hinv : b.Inv) :
+    ∃ ext, (kcondShare hash b mc).2.tries = b.tries ++ ext := by
+  cases mc with
+  | ipSet ps => exact (Builder.addSet_spec hash b ps hinv).2.1
+  | srcIpSet ps => exact (Builder.addSet_spec hash b ps hinv).2.1
+  | macSet ps => exact ⟨[ps], rfl⟩
+  | _ => exact ⟨[], by simp [kcondShare]⟩
+
+theorem kcondShare_inv (hash : List Prefix → Nat) (b : Builder) (mc : MCond) (hinv : b.Inv) : (kcondShare hash b mc).2.Inv := by
+  cases mc with
+  | ipSet ps => exact (Builder.addSet_spec hash b ps hinv).1
+  | srcIpSet ps => exact (Builder.addSet_spec hash b ps hinv).1
+  | macSet ps => intro h e he; exact getElem?_append_ext _ _ _ _ (hinv h e he)
+  | _ => exact hinv
+
+theorem outOK_of_tailOK (e : Entry MCond Out) (h : TailOK e.tail) : OutOK e := by
+  unfold OutOK outOK
+  cases ht : e.tail with
+  | final o =>
+    rw [ht] at h
+    obtain ⟨h1, _⟩ := h
+    unfold OB_MustRules at h1
+    simp only [OB_Or, OB_And, OB_MustRules, Bool.and_eq_true, bne_iff_ne, ne_eq]
+    omega
+  | _ => rfl
+
+theorem mkK_ranges (e : Entry MCond Out) (c : KCond) (h : TailOK e.tail) : (mkK e c).outbound < 256 ∧ (mkK e c).mark < 2 ^ 32 := by
+  unfold mkK obOf
+  cases ht : e.tail with
+  | final o => rw [ht] at h; obtain ⟨h1, h2⟩ := h; unfold OB_MustRules at h1; exact ⟨by show o.outbound < 256; omega, h2⟩
+  | or => exact ⟨by show OB_Or < 256; decide, by show (0 : Nat) < 2 ^ 32; decide⟩
+  | and => exact ⟨by show OB_And < 256; decide, by show (0 : Nat) < 2 ^ 32; decide⟩
+  | mustRules => exact ⟨by show OB_MustRules < 256; decide, by show (0 : Nat) < 2 ^ 32; decide⟩
+
+theorem assignShare_ok (hash : List Prefix → Nat) : ∀ (es : List (Entry MCond Out)) (b : Builder), b.Inv →
+    (∀ t ∈ b.tries, ∀ p ∈ t, p.WF) → (∀ e ∈ es, MCondOK e.cond ∧ TailOK e.tail) →
+    (∀ t ∈ (assignShare hash b es).2.tries, ∀ p ∈ t, p.WF) ∧
+    b.tries.length ≤ (assignShare hash b es).2.tries.length ∧
+    ∀ k ∈ (assignShare hash b es).1, EntryOK (assignShare hash b es).2.tries.length k := by
+  intro es
+  induction es with
+  | nil => intro b _ htw _; exact ⟨htw, Nat.le_refl _, fun k hk => by simp [assignShare] at hk⟩
+  | cons e es ih =>
+    intro b hinv htw hes
+    have he := hes e List.mem_cons_self
+    have k1 : (kcondShare hash b e.cond).2.Inv := kcondShare_inv hash b e.cond hinv
+    obtain ⟨k2, k3⟩ := kcondShare_ok hash b e.cond hinv htw he.1
+    obtain ⟨i1, i2, i3⟩ := ih (kcondShare hash b e.cond).2 k1 k2 (fun e' h => hes e' (List.mem_cons_of_mem _ h))
+    have hmono : b.tries.length ≤ (kcondShare hash b e.cond).2.tries.length := by
+      obtain ⟨ext, hx⟩ := kcondShare_mono hash b e.cond hinv
+      rw [hx]; simp
+    refine ⟨i1, Nat.le_trans hmono i2, ?_⟩
+    intro k hk
+    have hk' : k = mkK e (kcondShare hash b e.cond).1 ∨ k ∈ (assignShare hash (kcondShare hash b e.cond).2 es).1 := by
+      simpa [assignShare] using hk
+    rcases hk' with rfl | hk'
+    · obtain ⟨r1, r2⟩ := mkK_ranges e (kcondShare hash b e.cond).1 he.2
+      exact ⟨KCond.WF_mono _ _ _ k3 i2, r1, r2⟩
+    · exact i3 k hk'
 
 end DaeVerif.C02
